@@ -22,6 +22,8 @@ def obligations(tier, seed):
         KaniOb("c17", "c17_float_constructors_definition", "constructors from a float MJD / JD / UNIX / elapsed value build exactly (x - constant) x unit in the requested scale, for every finite f64",
                ["Epoch::from_mjd_in_time_scale (+6 wrappers)", "Epoch::from_jde_in_time_scale (+6 wrappers)", "Epoch::from_tai_seconds/_days", "Epoch::from_utc_seconds/_days", "Epoch::from_unix_seconds/_milliseconds", "impl Mul<f64> for Unit"],
                "every finite f64 (2^64 bit patterns) x six uniform scales", tq=2400),
+        KaniOb("c17", "c17_float_constructor_wrappers", "from_mjd_<scale> / from_jde_<scale> hand (x, their scale) to from_mjd_in_time_scale / from_jde_in_time_scale", ["Epoch::from_mjd_tai/utc/gpst/qzsst/gst/bdt", "Epoch::from_jde_tai/utc/gpst/qzsst/gst/bdt"],
+               "every finite f64", tq=1200),
         KaniOb("c17", "c17_float_views_total", "float-valued views: finite, no panic, sign of the exact value", ["Epoch::to_tai_seconds / to_tai_days / to_mjd_tai_days / to_jde_tai_days", "Duration::to_seconds", "Duration::to_unit"],
                "TAI epochs, |centuries| < 110", tq=900),
     ]
